@@ -878,6 +878,9 @@ impl Property for C14 {
                 format!("allowed positions {} lie inside the span replaced by another discretionary and get none\n{}", f("missC"), detail()),
             );
         }
+        if std::env::var("VERIF_C14_DUMP").is_ok() && !out.failures.is_empty() {
+            eprintln!("{}\t{}", case, out.failures.iter().map(|f| f.signature.clone()).collect::<Vec<_>>().join("|"));
+        }
         if f("mw") != "1" || model != spec {
             out.fail(Kind::ModelVsSpec, "words", "findWords differs from specWords", detail());
         } else if imp != model && imp == spec {
